@@ -28,6 +28,31 @@ class Violation(Exception):
         return {"kind": self.kind, "detail": jsonable(self.detail)}
 
 
+def raised_in_library(e):
+    """True if some frame of the exception's traceback lies in the npstructures tree under test"""
+    repo = os.path.realpath(os.environ.get("VERIF_REPO", "/repo")) + os.sep + "npstructures" + os.sep
+    tb = e.__traceback__
+    while tb is not None:
+        if os.path.realpath(tb.tb_frame.f_code.co_filename).startswith(repo):
+            return True
+        tb = tb.tb_next
+    return False
+
+
+def guard_body(body, case, ctx):
+    """Run a body.  An exception that escapes it from inside the library (an operand construction or selection the body
+    does outside its guarded calls was refused on a valid input) is a violation the owning check must report, not a harness
+    error; an exception raised by harness code alone stays a harness error."""
+    try:
+        body(case, ctx)
+    except Violation:
+        raise
+    except Exception as e:  # noqa: BLE001
+        if raised_in_library(e):
+            raise Violation("library-refused-a-valid-operand-construction", exception=f"{type(e).__name__}: {str(e)[:300]}") from e
+        raise
+
+
 class Ctx:
     """Per-case recorder: class labels, non-triviality, redirected draws."""
     __slots__ = ("labels", "nontrivial", "redirected", "skips")
@@ -137,7 +162,7 @@ def run_body(sc, case, stats=None):
     cj = canon(case)
     case = json.loads(cj)
     try:
-        sc.body(case, ctx)
+        guard_body(sc.body, case, ctx)
     except Violation as v:
         if stats is not None:
             stats.record(cj, ctx)
@@ -208,7 +233,7 @@ def _work_hyp(sc, task, stats, out):
         case = json.loads(cj)
         ctx = Ctx()
         try:
-            sc.body(case, ctx)
+            guard_body(sc.body, case, ctx)
         except Violation as v:
             last["case"] = case
             last["v"] = v
